@@ -52,7 +52,8 @@ var srcUnits = []srcUnit{
 		funcs: []string{"Mod", "Div", "Divmod", "IntMin", "GetHmsBySeconds", "MonthListIsValid", "DayListIsValid", "WeekDayListIsValid",
 			"bisectLeftRange", "BisectLeft"}},
 	{dir: ".", path: modPath, lean: "Lib", pre: "lib",
-		funcs: []string{"GetTotalSeconds", "GetFloatHour", "FloatHourToHMS", "toUint8", "HMS.IsValid", "Date.IsValid"}},
+		funcs: []string{"GetTotalSeconds", "GetFloatHour", "FloatHourToHMS", "toUint8", "HMS.IsValid", "Date.IsValid",
+			"DHMS.IsValid", "HMSRange.IsValid", "DateHMS.IsValid"}},
 	{dir: "interval", path: modPath + "/interval", lean: "Interval", pre: "interval",
 		funcs: []string{"Less", "GetPointList", "GetIntervalList", "Normalize", "Humanize", "Extract", "IntervalListByNumList",
 			"intersectionOfSomeIntervalLists_endPoint", "IntersectionOfSomeIntervalLists", "Intersection"}},
@@ -122,6 +123,20 @@ func ownStruct(n *types.Named, pre string) (string, bool) {
 		case isBool(f.Type()):
 			fields = append(fields, "  "+f.Name()+" : Bool")
 		default:
+			// a field that is (a pointer to) one of the structures of GoSem.lean (also when embedded): pointers are
+			// values in the translation, so a nil field is outside the fragment (a use of it would be a nil dereference)
+			{
+				ft := f.Type()
+				if pf, ok := ft.(*types.Pointer); ok {
+					ft = pf.Elem()
+				}
+				if fn, ok := ft.(*types.Named); ok && fn.Obj().Pkg() != nil {
+					if ls, ok := srcStructs[fn.Obj().Pkg().Path()+"."+fn.Obj().Name()]; ok {
+						fields = append(fields, "  "+f.Name()+" : "+ls)
+						continue
+					}
+				}
+			}
 			if ar, ok := f.Type().Underlying().(*types.Array); ok && isInt(ar.Elem()) {
 				fields = append(fields, "  "+f.Name()+" : List Int") // [N]int: a list of N integers
 				continue
